@@ -17,10 +17,10 @@ func TestC22(t *testing.T) {
 	defer r.Finish(t)
 	var targets []Target
 	targets = append(targets, ParrotTargets(false)...)
-	for i := 0; i < mon.Pick(150, 10000); i++ {
+	for i := 0; i < mon.Pick(150, 60000); i++ {
 		targets = append(targets, RandomizedTarget(i))
 	}
-	for i := 0; i < mon.Pick(200, 10000); i++ {
+	for i := 0; i < mon.Pick(200, 60000); i++ {
 		targets = append(targets, CustomTarget(i))
 	}
 	type job struct {
